@@ -7,6 +7,7 @@ import json
 import os
 import random
 import time
+import zlib
 
 import sessions
 import uci
@@ -67,6 +68,11 @@ def search(bdir, row, hmcs, net, threads, hashmb, prelude=()):
                 return [(None, "no-bestmove", pfen)]
         for hmc in hmcs:
             fen = row_fen(row, hmc)
+            hk = zlib.crc32(fen.encode())
+            if hmc != hmcs[0] and (hk & 3) == 0:
+                # a new game / Clear Hash between two searches of the same ending: the table is generated afresh
+                eng.send("ucinewgame" if (hk & 4) else "setoption name Clear Hash")
+                eng.isready(60)
             eng.send(f"position fen {fen}")
             eng.send("go infinite")
             last = None
